@@ -193,6 +193,19 @@ func bindPlaceholders(g *Gen, docs map[string]*Node) {
 			}
 		}
 	}
+	// a property whose name extends the name of the sibling it points to (address / addressBackup)
+	if set["N_26"] && set["N_3"] {
+		_, b3 := g.Names.ToConcrete["N_3"]
+		_, b26 := g.Names.ToConcrete["N_26"]
+		if !b3 && !b26 {
+			base := g.concreteName(g.pickClass())
+			if !g.usedConcrete[base+"Backup"] && !reservedWords[base+"Backup"] {
+				g.usedConcrete[base+"Backup"] = true
+				g.Names.Bind("N_3", base)
+				g.Names.Bind("N_26", base+"Backup")
+			}
+		}
+	}
 	// a definition whose name is a string prefix of the name of the definition that refers to it (node / nodeList)
 	if set["N_1"] && set["N_2"] && g.r.Intn(2) == 0 {
 		_, b1 := g.Names.ToConcrete["N_1"]
@@ -453,7 +466,7 @@ func flattenScenarios(tier string, seed int64, scratch string) ([]*Case, []strin
 			b.Files[id] = scenarioFiles[id]
 		}
 		b.Feat = Features{NAux: len(fs.Docs) - 1, Collision: fs.C != "none" || fs.T == "anonimport",
-			Anon:      fs.T == "anonprop" || fs.T == "anonitems" || fs.T == "anonallof" || fs.T == "anonsibling" || fs.T == "anonimport" || fs.T == "anoncase",
+			Anon:      fs.T == "anonprop" || fs.T == "anonitems" || fs.T == "anonallof" || fs.T == "anonsibling" || fs.T == "anonimport" || fs.T == "anoncase" || fs.T == "anonbackup",
 			SharedPtr: fs.T == "sharedparam" || fs.T == "sharedresp",
 			// a pointer nested in a pointer target belongs to the wider class W+ (C09 only)
 			// ... and so do holders under keywords that Swagger 2.0 does not have (patternProperties, anyOf, oneOf, not, nested definitions)
